@@ -69,7 +69,7 @@ impl Prop for C02 {
     "C02"
   }
   fn rule(&self) -> String {
-    "hosts: (2 in 3) G2 loop programs - 1-4 tail-recursive functions (compiled to while loops) with a basic induction variable (start and bound from {0, +-1, small, 65536, 2^30, INT_MAX-k, INT_MIN+k}, strides +-1, +-2..7, +-1000, +-65536, 2^20, +-2^30, +-INT_MAX, written as i + s or i - s), guards < <= > >= != == in both operand orders, an optional second induction variable, accumulator updates (sum, derived induction expression i*k+c, wrapping acc*3+i, remainder, division, division / remainder by a loop-dependent possibly-zero value, loop-invariant b*2+c, nested loop call, tuple allocated per iteration, conditional), results acc / i / acc+j / i*k+acc / the guard re-evaluated, Process.println inside the body (1 in 4), arguments passed as literals or as opaque run-time values; trip counts bounded by simulation with wrapping arithmetic (<=1500, <=30 with effects); (1 in 3) G1 general programs (generics, closures, structs, enums, match, strings, Vec); plans: no optimizer (reference), all 32 on/off configurations of {LVN, CSE, loop, inlining, scalar replacement} through optimize_sources, each of the 8 passes alone, and 3 tape-chosen sequences of 2-6 passes (hook); oracle (differential): every plan's emitted module, executed in node, prints the same lines and ends the same way (ok / panic message / trap class / stack exhaustion) as the unoptimized module; plans for which the compiler panics or emits an invalid module are counted and skipped (artefact validity is C03's subject); a run that exceeds the time limit where the reference finished is re-run with a doubled limit before it is reported; non-trivial = >=2 distinct emitted modules and (a loop that iterates or a G1 host); distinct = hash of the program".into()
+    "hosts: (2 in 3) G2 loop programs - 1-4 tail-recursive functions (compiled to while loops) with a basic induction variable (start and bound from {0, +-1, small, 65536, 2^30, INT_MAX-k, INT_MIN+k}, strides +-1, +-2..7, +-1000, +-65536, 2^20, +-2^30, +-INT_MAX, written as i + s or i - s), guards < <= > >= != == in both operand orders, an optional second induction variable, accumulator updates (sum, derived induction expression i*k+c, wrapping acc*3+i, remainder, division, division / remainder by a loop-dependent possibly-zero value, loop-invariant b*2+c, nested loop call, tuple allocated per iteration, conditional), results acc / i / acc+j / i*k+acc / the guard re-evaluated, Process.println inside the body (1 in 4), arguments passed as literals or as opaque run-time values; trip counts bounded by simulation with wrapping arithmetic (<=1500, <=30 with effects); (1 in 3) G1 general programs (generics, closures, structs, enums, match, strings, Vec); plans: no optimizer (reference), all 32 on/off configurations of {LVN, CSE, loop, inlining, scalar replacement} through optimize_sources, each of the 8 passes alone, and 3 tape-chosen driver-shaped schedules (1-3 rounds of `ccp, [sr], [loop], [cse], [lvn], dce` with a per-round subset, inlining + unused-name elimination between rounds, closed with `ccp, dce, ccp`) through the hook; oracle (differential): every plan's emitted module, executed in node, prints the same lines and ends the same way (ok / panic message / trap class / stack exhaustion) as the unoptimized module; plans for which the compiler panics or emits an invalid module are counted and skipped (artefact validity is C03's subject); a run that exceeds the time limit where the reference finished is re-run with a doubled limit before it is reported; non-trivial = >=2 distinct emitted modules and (a loop that iterates or a G1 host); distinct = hash of the program".into()
   }
   fn assumptions(&self) -> Vec<String> {
     vec![
@@ -86,7 +86,31 @@ impl Prop for C02 {
     }
   }
   fn generate(&self, t: &mut Tape, tier: Tier) -> Value {
-    let sequences: Vec<Vec<&str>> = (0..3).map(|_| (0..2 + t.choose(5)).map(|_| PASSES[t.choose(PASSES.len())]).collect()).collect();
+    // driver-shaped schedules: 1-3 rounds, each `ccp, [sr], [loop], [cse], [lvn], dce` with a tape-chosen
+    // subset per round (a configuration that varies from round to round), inlining + unused-name
+    // elimination between rounds, closed like the driver with `ccp, dce, ccp`. Every pass therefore
+    // sees an input some run of the driver's own pass order could have produced.
+    let sequences: Vec<Vec<&str>> = (0..3)
+      .map(|_| {
+        let mut seq = vec![];
+        let rounds = 1 + t.choose(3);
+        for r in 0..rounds {
+          seq.push("conditional-constant-propagation");
+          for p in ["scalar-replacement", "loop-optimizations", "common-subexpression-elimination", "local-value-numbering"] {
+            if t.bool(1, 2) {
+              seq.push(p);
+            }
+          }
+          seq.push("dead-code-elimination");
+          if r + 1 < rounds && t.bool(2, 3) {
+            seq.push("inlining");
+            seq.push("unused-name-elimination");
+          }
+        }
+        seq.extend(["conditional-constant-propagation", "dead-code-elimination", "conditional-constant-propagation"]);
+        seq
+      })
+      .collect();
     if t.bool(2, 3) {
       let text = gen_loop_program(t, &loop_cfg());
       let mut art = art_of(&vec![(vec!["Main".to_string()], text)], &["Main".to_string()], &["loop-program"]);
